@@ -666,24 +666,24 @@ class C10(verif.Spec):
         def add(kind, c):
             kinds[id(c)] = kind
             cases.append(c)
-        for _ in range(500 if quick else 6000):
+        for _ in range(500 if quick else 3000):
             add("decoder", case_decoder(rng, rng.choice([10, 30, 80, 200])))
-        for _ in range(700 if quick else 8000):
+        for _ in range(700 if quick else 4000):
             add("client", case_client(rng, rng.choice([10, 30, 60, 150, 400 if not quick else 150])))
-        for _ in range(200 if quick else 2000):
+        for _ in range(200 if quick else 1000):
             add("dupkey", case_dupkey(rng, rng.choice([10, 40, 120])))
         # bounded-exhaustive histories over a small alphabet
         depth = 3 if quick else 4
         for seq in itertools.product(ALPHABET, repeat=depth):
-            if quick and rng.random() < 0.6:
+            if rng.random() < (0.6 if quick else 0.65):
                 continue
             add("enum", case_enum(rng, seq, hold=rng.random() < 0.5))
-        for _ in range(300 if quick else 3000):
+        for _ in range(300 if quick else 1500):
             seq = [rng.choice(ALPHABET) for _ in range(rng.randrange(5, 9))]
             add("enum", case_enum(rng, seq, hold=rng.random() < 0.5))
         # memory pressure (the limit is a constant in 0.2; the harness pokes the field): the cases are
         # cut where the model predicts undefined behaviour of the C code (see NOTES/C10.md, latent defects)
-        press = [case_client(rng, rng.choice([20, 60, 150]), pressure=True) for _ in range(300 if quick else 3000)]
+        press = [case_client(rng, rng.choice([20, 60, 150]), pressure=True) for _ in range(300 if quick else 1500)]
         try:
             outs = self.model_lines(press)
             self.cut = 0
@@ -699,7 +699,7 @@ class C10(verif.Spec):
             press = []
         for c in press:
             add("pressure", c)
-        for _ in range(60 if quick else 600):
+        for _ in range(60 if quick else 300):
             add("malformed", case_malformed(rng, 40))
         self._kinds = {"\n".join(c): kinds[id(c)] for c in cases if id(c) in kinds}
         self.extra_coverage = {"pressure_cases_cut_at_predicted_ub": getattr(self, "cut", 0)}
